@@ -262,9 +262,41 @@ def check_siblookup(ctx, P):
 def run(ctx):
     ctx.clause = ("the hash section indexes handed out belong to the kind of table announced (whatever the order of the "
                   "sections), and the SysV / GNU / linear lookups build the symbol they return from the same fields")
-    ctx.rules = ["R-HTKIND", "R-SIBLOOKUP"]
+    ctx.rules = ["R-HTKIND", "R-SIBLOOKUP", "R-NAMECMP"]
     P = ctx.program(UNITS)
     check_htkind(ctx, P)
     check_siblookup(ctx, P)
+    check_namecmp(ctx, P)
     ctx.assume("the walks of the two hash tables themselves (hash functions, bloom filter, chains) are algorithmic and not "
                "decided; their memory safety on corrupted tables is decided under C34")
+
+
+
+def check_namecmp(ctx, P):
+    """R-NAMECMP: compare_symbol_name - the one name test shared by the three lookups - decides *equality* of whole
+    names.  A length-bounded comparison (strncmp / memcmp / string::compare(pos, n, ..)) answers "is a prefix of" unless
+    the function also tests that the two lengths are equal: looking `sym_2` up would then find `sym_282`."""
+    fs = [f for f in P.all_funcs() if f.n == "compare_symbol_name" and not f.dep and f.cfg() is not None]
+    if len(fs) != 1:
+        raise AnalysisBroken("anchor vanished: compare_symbol_name (src/abg-dwarf-reader.cc)")
+    f = fs[0]
+    ctx.analysed(f)
+    bounded = []
+    for n in f.nodes():
+        if n["k"] == "CallExpr" and (f.decl(n) or {}).get("n") in ("strncmp", "memcmp", "strncasecmp"):
+            bounded.append(n)
+        if n["k"] == "CXXMemberCallExpr" and (f.decl(n) or {}).get("n") == "compare" and len(call_args(n)) >= 3:
+            bounded.append(n)
+    len_eq = False
+    for n in f.nodes():
+        if n["k"] == "BinaryOperator" and n.get("op") in ("==", "!="):
+            txt = expr_str(f, n)
+            if any(w in txt for w in ("size()", "length()", "strlen(")) and txt.count("size()") + txt.count("length()") + txt.count("strlen(") >= 2:
+                len_eq = True
+    rets = [n for n in f.nodes() if n["k"] == "ReturnStmt" and n.get("c")]
+    ctx.floor("R-NAMECMP", "returns of compare_symbol_name", len(rets), 1)
+    ok = not bounded or len_eq
+    ctx.ob("R-NAMECMP", "compare_symbol_name compares whole names", ok, f.loc(bounded[0]) if bounded else f.loc(),
+           "no length-bounded comparison (or the lengths are compared too)" if ok else
+           "`%s` compares at most as many characters as one of the names has and the lengths are never compared: a name "
+           "that is a proper prefix of a symbol in the same hash bucket is reported as found" % expr_str(f, bounded[0])[:70])
